@@ -16,12 +16,15 @@ SCHEMA_URL = "file:///sim/schema/s.xml"
 
 
 def comp_type(name, implements, conv=1, required=False, dt=None):
+    dflt = "dflt"
+    if dt in G.DOTTED_STOCK:
+        dflt = G.DOTTED_STOCK[dt][0][0]
     return {"name": name, "kind": "concrete", "extends": None,
             "implements": implements, "keytype": None, "datatype": None,
             "items": [{"kind": "key", "name": "pk", "attribute": None,
                        "datatype": dt or "zcsim.simdt.conv_%d" % conv,
                        "required": required,
-                       "default": None if required else "dflt",
+                       "default": None if required else dflt,
                        "handler": None}]}
 
 
@@ -49,6 +52,9 @@ def add_import_surface(rng, ir, comp_src=0.0, src_versions=None):
             # a datatype whose dotted name differs from the one package 0
             # uses only in letter case (another function)
             dt = "zcsim.simdt.Conv_1"
+        elif rng.random() < 0.15:
+            # a STOCK conversion named by its dotted name
+            dt = rng.choice(sorted(G.DOTTED_STOCK))
         elif rng.random() < 0.3:
             # a datatype that lives in a module of its own, imported when
             # the component is parsed (an import that can fail for a while)
@@ -145,7 +151,11 @@ def import_lines(rng, packages, ctypes, names):
                         out.append({"t": "<%s %s>" % (t["name"], nm),
                                     "role": "open", "type": t["name"],
                                     "name": nm, "slot": "*", "multi": True})
-                        out.append({"t": "pk val%d" % len(names),
+                        pv = "val%d" % len(names)
+                        if t["items"][0]["datatype"] in G.DOTTED_STOCK:
+                            pv = G.DOTTED_STOCK[
+                                t["items"][0]["datatype"]][0][-1]
+                        out.append({"t": "pk " + pv,
                                     "role": "key", "item": "pk", "key": "pk",
                                     "dt": t["items"][0]["datatype"],
                                     "val": "val", "multi": False,
